@@ -115,7 +115,7 @@ func c05CliWorld(rc *RunCtx) {
 		want, total = final, nLines
 	}
 	got := map[string]int{}
-	var bad []string
+	var bad, unread []string
 	for _, l := range strings.Split(o.Stdout, "\n") {
 		if strings.TrimSpace(l) == "" {
 			continue
@@ -139,11 +139,20 @@ func c05CliWorld(rc *RunCtx) {
 		}
 		m := re.FindStringSubmatch(l)
 		if m == nil {
-			rc.Violate("HARNESS-parse", "cannot parse the %s line %q\n%q", sc.Cmd, l, o.Stdout)
-			return
+			unread = append(unread, l)
+			continue
 		}
 		c, _ := strconv.Atoi(m[2])
 		got[m[1]] += c
+	}
+	if len(unread) > 0 && len(got) == 0 {
+		// no row of the screen can be read: the output format is not what this world knows (inconclusive, never a violation)
+		rc.Violate("HARNESS-parse", "cannot parse the %s line %q\n%q", sc.Cmd, unread[0], o.Stdout)
+		return
+	}
+	for _, l := range unread {
+		// other rows read fine: this one is not a row of the graph (a key torn apart, a count missing)
+		bad = append(bad, fmt.Sprintf("the line %q is not a row `key  count`", l))
 	}
 	for k, c := range want {
 		if got[k] != c {
